@@ -34,11 +34,14 @@ AccessOK(m, k, o) ==
 \* ---------------------------------------------------------------- generator
 Ops == {[op |-> "set", key |-> k, val |-> v] : k \in Keys, v \in Vals} \cup {[op |-> "del", key |-> k] : k \in Keys}
        \cup {[op |-> "reset"], [op |-> "recycle"], [op |-> "fill", n |-> 35], [op |-> "stale"]}
+       \* two calls with no observation in between (an accessor that caches must notice both)
+       \cup {[op |-> "delset", key |-> k1, key2 |-> k2, val |-> "7"] : k1, k2 \in Keys}
 \* stale: Destroy, then a Set through the OLD pointer (a late writer), then NewContext - which must still start empty
 \* fill: n Set calls with keys f1 .. fn (more parameters than any pattern of the test-suite captures)
 RECURSIVE Fill(_, _)
 Fill(m, n) == IF n = 0 THEN m ELSE Fill(PSet(m, "f" \o ToString(n), "v"), n - 1)
-Apply(m, o) == CASE o.op = "set" -> PSet(m, o.key, o.val) [] o.op = "del" -> PDel(m, o.key) [] o.op = "fill" -> Fill(m, o.n) [] OTHER -> <<>>
+Apply(m, o) == CASE o.op = "set" -> PSet(m, o.key, o.val) [] o.op = "del" -> PDel(m, o.key) [] o.op = "fill" -> Fill(m, o.n)
+                 [] o.op = "delset" -> PSet(PDel(m, o.key), o.key2, o.val) [] OTHER -> <<>>
 Init == ps = <<>> /\ hist = <<>>
 Next == Len(hist) < Depth /\ \E o \in Ops : ps' = Apply(ps, o) /\ hist' = Append(hist, o)
 Spec == Init /\ [][Next]_vars
